@@ -417,7 +417,7 @@ fn pool(op: &'static str, tier: Tier) -> Vec<Case> {
                                 if n_c.0 == 2 && (e.is_some() || ceil == Some(0)) {
                                     continue;
                                 }
-                                let cls = if s.is_none() { "strides absent".to_string() } else { format!(
+                                let cls = if s.is_none() && ap != Some("SAME_LOWER") { "strides absent".to_string() } else { format!(
                                     "{}{}{}",
                                     match (&pads, ap) {
                                         (Some(p), _) if p.iter().all(|v| *v == 0) => "pads zero".to_string(),
@@ -469,7 +469,7 @@ fn pool(op: &'static str, tier: Tier) -> Vec<Case> {
                             if is_max && e.is_some() {
                                 continue;
                             }
-                            let cls = if s.is_none() { "strides absent".to_string() } else { format!(
+                            let cls = if s.is_none() && ap != Some("SAME_LOWER") { "strides absent".to_string() } else { format!(
                                 "{}{}{}",
                                 match (&pads, ap) {
                                     (Some(p), _) if p[0] == p[2] && p[1] == p[3] => "pads symmetric".to_string(),
